@@ -726,3 +726,40 @@ mod tests {
         assert_eq!(0, sign.height);
     }
 }
+
+/// Verification hooks: construct and inspect a [`VirtualSign`] in an arbitrary internal state.
+///
+/// Only compiled for the external verification harnesses (`cfg(kani)` or `--cfg flipdot_verif`).
+#[cfg(any(kani, flipdot_verif))]
+impl<'a> VirtualSign<'a> {
+    /// Builds a sign directly from all of its fields.
+    #[allow(clippy::too_many_arguments)]
+    pub fn verif_from_parts(
+        address: Address,
+        flip_style: PageFlipStyle,
+        state: State,
+        pages: Vec<Page<'a>>,
+        pending_data: Vec<u8>,
+        data_chunks: u16,
+        width: u32,
+        height: u32,
+        sign_type: Option<SignType>,
+    ) -> Self {
+        VirtualSign {
+            address,
+            flip_style,
+            state,
+            pages,
+            pending_data,
+            data_chunks,
+            width,
+            height,
+            sign_type,
+        }
+    }
+
+    /// Returns the fields that have no public accessor: pending data, chunk counter, width, height, flip style.
+    pub fn verif_parts(&self) -> (&[u8], u16, u32, u32, PageFlipStyle) {
+        (&self.pending_data, self.data_chunks, self.width, self.height, self.flip_style)
+    }
+}
